@@ -15,11 +15,11 @@ SCF_AUTH = 0x00  # authentication only, S-A_Data
 
 def secure_frame(key: bytes, apdu: bytes, seq: int, src: int, dst: int, *, scf: int = SCF_ENC, code: int = W.L_DATA_IND,
                  ctrl1: int | None = None, hops: int = 6, ext_format: int = 0, group: bool = True,
-                 asdu: bytes | None = None) -> bytes:
+                 asdu: bytes | None = None, tpci: int = 0x00) -> bytes:
     """Complete cEMI frame carrying a Data Secure APDU built by the independent implementation."""
     if asdu is None:
-        asdu = C.ds_secure(key, apdu, scf, seq, src, dst, group, ext_format, 0x00)
-    tpdu = bytes((0x03, 0xF1, scf)) + asdu
+        asdu = C.ds_secure(key, apdu, scf, seq, src, dst, group, ext_format, tpci)
+    tpdu = bytes((tpci | 0x03, 0xF1, scf)) + asdu
     if ctrl1 is None:
         ctrl1 = 0xBC if len(tpdu) - 1 <= 15 else 0x3C
     return W.cemi_ldata(code, src, dst, group=group, tpci_apci=tpdu, ctrl1=ctrl1, hops=hops, ext_format=ext_format)
@@ -66,6 +66,25 @@ class Node:
         self.delivered: list[dict[str, Any]] = []
         self.key_issues: list[dict[str, Any]] = []
         self.sent_raw: list[bytes] = []
+        # telegrams that are not T_Data_Group go to Management.process instead of the telegram queue: observed there
+        self.mgmt_seen: list[dict[str, Any]] = []
+        from xknx.management import Management
+        node = self
+
+        class RecMgmt(Management):
+            __slots__ = ()
+
+            def process(self, telegram):
+                try:
+                    apdu = bytes(telegram.payload.to_knx()) if telegram.payload is not None else b""
+                except Exception:  # pylint: disable=broad-except
+                    apdu = b"?"
+                node.mgmt_seen.append({"src": telegram.source_address.raw, "dst": telegram.destination_address.raw,
+                                       "apdu": apdu, "secure": telegram.data_secure, "tpci": type(telegram.tpci).__name__,
+                                       "n": node.R.record("mgmt_process", node.name, apdu.hex())})
+                return super().process(telegram)
+
+        self.xknx.management = RecMgmt(self.xknx)
         self.xknx.telegram_queue.register_telegram_received_cb(self._on_tg)
         self.xknx.telegram_queue.register_data_secure_group_key_issue_cb(self._on_issue)
 
